@@ -8,6 +8,7 @@ use std::io::{Read, Seek, SeekFrom, Write};
 pub mod alloc;
 pub mod flacfile;
 pub mod io;
+pub mod meta;
 pub mod readers;
 pub mod writers;
 
